@@ -36,7 +36,7 @@ TRACE_CFG = "SPECIFICATION TraceSpec\nINVARIANT Accepted\nCHECK_DEADLOCK FALSE\n
 
 # residue kinds: kind -> (resname, atom names); signatures (resname, atom count) are pairwise distinct
 KINDS = {'a': ('RA', ['A1', 'A2']), 'b': ('RB', ['B1']), 'c': ('RC', ['C1', 'C2', 'C3']), 'd': ('RD', ['D1', 'D2']),
-         'e': ('RA', ['E1', 'E2', 'E3']), 'w': ('WAT', ['OW']),
+         'e': ('RA', ['A1', 'A2', 'A3']), 'w': ('WAT', ['OW']),      # kind e: the atoms of kind a plus one (ALA / ALA+OXT)
          'ax': ('RA', ['Z1', 'Z2'])}        # the clone: signature of kind 'a', other atom names
 PATTERN = {'A': ['a'], 'B': ['b', 'c'], 'C': ['d', 'd'], 'D': ['e'], 'W': ['w'], 'X': ['ax']}
 
